@@ -284,6 +284,61 @@ func NativeToOvs(column *ColumnSchema, rawElem interface{}) (interface{}, error)
 	}
 }
 
+// ValidateValue checks a native value against the constraints of its column
+// that its native type does not capture: the number of elements it may hold
+// and, for enums, the values it may take
+func ValidateValue(column *ColumnSchema, nativeElem interface{}) error {
+	if column.TypeObj == nil {
+		return nil
+	}
+	var keys, values []interface{}
+	switch v := reflect.ValueOf(nativeElem); v.Kind() {
+	case reflect.Slice, reflect.Array:
+		for i := 0; i < v.Len(); i++ {
+			keys = append(keys, v.Index(i).Interface())
+		}
+	case reflect.Map:
+		for _, k := range v.MapKeys() {
+			keys = append(keys, k.Interface())
+			values = append(values, v.MapIndex(k).Interface())
+		}
+	case reflect.Ptr:
+		if !v.IsNil() {
+			keys = append(keys, v.Elem().Interface())
+		}
+	default:
+		keys = append(keys, nativeElem)
+	}
+	if max := column.TypeObj.Max(); len(keys) < column.TypeObj.Min() || (max != Unlimited && len(keys) > max) {
+		return NewConstraintViolation(fmt.Sprintf("%d elements is not a valid number of elements for a column of type %s", len(keys), column))
+	}
+	if err := validateEnum(column.TypeObj.Key, keys); err != nil {
+		return err
+	}
+	return validateEnum(column.TypeObj.Value, values)
+}
+
+// validateEnum checks that the elements are among the values the base type
+// allows, if it restricts them
+func validateEnum(baseType *BaseType, elems []interface{}) error {
+	if baseType == nil || len(baseType.Enum) == 0 {
+		return nil
+	}
+	for _, elem := range elems {
+		allowed := false
+		for _, enum := range baseType.Enum {
+			if native, err := OvsToNativeAtomic(baseType.Type, enum); err == nil && native == elem {
+				allowed = true
+				break
+			}
+		}
+		if !allowed {
+			return NewConstraintViolation(fmt.Sprintf("%v is not one of the allowed values %v", elem, baseType.Enum))
+		}
+	}
+	return nil
+}
+
 // IsDefaultValue checks if a provided native element corresponds to the default value of its
 // designated column type
 func IsDefaultValue(column *ColumnSchema, nativeElem interface{}) bool {
